@@ -56,7 +56,13 @@ type Cluster struct {
 	gossip      []*GossipMsg
 	seenGossip  map[uint64]bool
 	ended       map[string]bool // session ids whose serve loop + teardown are over
+	// idSuffix makes session ids unique across the clusters of one process: goroutines of an
+	// earlier case may still be finishing their teardown when the next case has started, and
+	// their "session ended" notifications must not be taken for sessions of the new cluster
+	idSuffix string
 }
+
+var clusterSeq int64
 
 var hookOnce sync.Once
 var current atomic.Value // *Cluster
@@ -69,6 +75,9 @@ func NewCluster() (*Cluster, error) {
 	}
 	cl := &Cluster{TmpRoot: root, AutoGossip: true, SettleBudget: 30 * time.Second,
 		unreachable: map[uint64]bool{}, seenGossip: map[uint64]bool{}, ended: map[string]bool{}}
+	if k := atomic.AddInt64(&clusterSeq, 1); k > 1 {
+		cl.idSuffix = fmt.Sprintf("~%d", k)
+	}
 	current.Store(cl)
 	hookOnce.Do(func() {
 		wasp.VerifOnSessionEnded.Store(func(id string) {
